@@ -413,6 +413,54 @@ def tag_sequence_case(rng, res, label):
     res.failures.append(Failure(None, f"C14 {label}: {problem}", {"label": label, "trace": trace}))
 
 
+def tagged_in_container_transform_case(rng, res, label):
+  """TaggedValues held by containers (not expanded into a parent's argument) survive materialize_defaults and
+  with_defaults_trimmed untouched: same arguments, same tags, still selected by their tag, still buildable."""
+  from fiddle._src import materialize                       # pylint: disable=g-import-not-at-top
+  from fiddle._src.experimental import visualize            # pylint: disable=g-import-not-at-top
+  t1, t2 = rng.sample(TAGS, 2)
+  tv1 = t1.new(rng.randint(0, 9))
+  tv2 = t2.new(rng.randint(0, 9)) if rng.random() < 0.7 else t2.new()
+  inner = rng.choice([lambda: [tv1, {"k": tv2}], lambda: {"a": (tv1,), "b": [tv2, tv1]}, lambda: (tv1, [tv2])])()
+  root = rng.choice([lambda: fdl.Config(l2.fa, inner), lambda: fdl.Config(l2.fd, x=inner, y=fdl.Config(l2.fg, 1))])()
+  want_tags = tags_only(root)
+  want_args = sorted(sorted(map(repr, b.__arguments__)) for b in buildables(root) if isinstance(b, config_lib.TaggedValueCls))
+  replay = {"label": label, "root": repr(root)[:800]}
+  for name in ("materialize_defaults", "with_defaults_trimmed"):
+    res.evaluations += 1
+    res.count("tagged-in-container:" + name)
+    work = copy.deepcopy(root)
+    try:
+      if name == "materialize_defaults":
+        materialize.materialize_defaults(work)
+      else:
+        work = visualize.with_defaults_trimmed(work)
+    except Exception as e:  # pylint: disable=broad-except
+      res.failures.append(Failure(None, f"C14 {label}: {name} raised {type(e).__name__}: {e}", replay))
+      return
+    got_args = sorted(sorted(map(repr, b.__arguments__)) for b in buildables(work) if isinstance(b, config_lib.TaggedValueCls))
+    if tags_only(work) != want_tags:
+      res.failures.append(Failure(None, f"C14 {label}: tags lost or changed by {name}", replay))
+      return
+    if got_args != want_args:
+      res.failures.append(Failure(None, f"C14 {label}: {name} changed the arguments of a TaggedValue held by a container: "
+                                  f"{got_args} instead of {want_args}", replay))
+      return
+    ref = copy.deepcopy(root)
+    for c in (work, ref):
+      fdl.set_tagged(c, tag=t1, value=77)
+      fdl.set_tagged(c, tag=t2, value=88)
+    try:
+      a, b = fdl.build(work), fdl.build(ref)
+    except Exception as e:  # pylint: disable=broad-except
+      res.failures.append(Failure(None, f"C14 {label}: after {name} and set_tagged the configuration does not build: "
+                                  f"{type(e).__name__}: {e}", replay))
+      return
+    if repr(a) != repr(b):
+      res.failures.append(Failure(None, f"C14 {label}: after {name}, set_tagged reaches different arguments", replay))
+      return
+
+
 def run(tier: str, seed: int) -> Result:
   rng = random.Random(seed * 141650939 + 14)
   res = Result()
@@ -438,6 +486,7 @@ def run(tier: str, seed: int) -> Result:
     check_set_tagged(rng, res, intern, stream, root, f"dag#{i}")
   for i in range(12 if tier == "quick" else 200):
     check_tagged_value(rng, res, f"tv#{i}")
+    tagged_in_container_transform_case(rng, res, f"tvc#{i}")
   for i in range(40 if tier == "quick" else 1000):
     check_diff_with_callable_swap(rng, res, f"diffswap#{i}")
   for i in range(150 if tier == "quick" else 4000):
